@@ -79,10 +79,78 @@ def gen_gate(rng, tier):
             'auto_open': rng.random() < 0.7, 'seed': rng.randrange(1 << 30)}
 
 
+def gen_faults(rng, tier):
+    """C03/C04 on the balancers that inherit __Get/__Put: an aperture of min_size >= 3 members with idle endpoints
+    outside it, requests kept outstanding on some members, then faults on the member at the root of the heap and
+    on busy members (each mark-down inside __Get makes the aperture take in an idle endpoint), bursts of
+    dispatches right after the fault, recoveries, completions in any order, a few joins/leaves"""
+    kind = 'aperture' if rng.random() < 0.85 else 'heap'
+    min_size = rng.choice([3, 3, 4, 5])
+    n_eps = min_size + rng.choice([1, 2, 3, 5])
+    universe = n_eps + 2
+    max_size = rng.choice([min_size + 1, min_size + 3, 1 << 31, 1 << 31])
+    bands = [([0, 1], [1000, 1]), ([0, 1], [1000, 1]), ([1, 2], [2, 1]), ([1, 4], [3, 1]), ([0, 1], [2, 1])]
+    min_load, max_load = rng.choice(bands)
+    slow = rng.random() < 0.1
+    initial = sorted(rng.sample(range(universe), n_eps))
+    ops = [['open'], ['loaded']]
+    if slow:
+        ops += [['opened', -1, True] for _ in range(min_size)]
+    n_get = 0
+    open_gets = []
+
+    def get(n):
+        nonlocal n_get
+        for _ in range(n):
+            ops.append(['get']); open_gets.append(n_get); n_get += 1
+
+    def put(n):
+        for _ in range(n):
+            if not open_gets:
+                return
+            mode = rng.random()
+            i = 0 if mode < 0.25 else (len(open_gets) - 1 if mode < 0.5 else rng.randrange(len(open_gets)))
+            ops.append(['put', open_gets.pop(i)])
+
+    rounds = rng.choice([2, 3, 5, 8])
+    for _ in range(rounds):
+        get(rng.choice([0, 1, 2, 4, 7]))
+        put(rng.choice([0, 0, 1, 3]))
+        r = rng.random()
+        if r < 0.45:
+            ops.append(['chan', -2, rng.choice([4, 4, 3, 1])])
+        elif r < 0.65:
+            ops.append(['chan', -3, rng.choice([4, 4, 3])])
+        elif r < 0.8:
+            ops.append(['chan', -1, rng.choice([4, 2, 2, 1])])
+        elif r < 0.9:
+            ops.append(['leave', rng.choice(initial) if rng.random() < 0.8 else rng.randrange(universe)])
+        else:
+            ops.append(['join', rng.randrange(universe)])
+        if rng.random() < 0.3:
+            ops.append(['tick', rng.choice([10, 1000, 10000])])
+        get(rng.choice([1, 2, 4, 6]))
+        if slow and rng.random() < 0.7:
+            ops.append(['opened', -1, rng.random() < 0.8])
+        put(rng.choice([0, 1, 2, 5]))
+        if rng.random() < 0.4:
+            ops.append(['chan', -1, 2])
+        if rng.random() < 0.1 and kind == 'aperture':
+            ops.append(['jitter'])
+    get(rng.choice([0, 2, 4]))
+    put(rng.choice([0, 2, 8]))
+    return {'kind': kind, 'min_size': min_size, 'max_size': max_size, 'min_load': min_load,
+            'max_load': max_load, 'slow_open': slow, 'initial': initial, 'ops': ops,
+            'auto_open': rng.random() < 0.9, 'seed': rng.randrange(1 << 30)}
+
+
 def gen_script(rng, tier, focus):
-    """focus 5: membership histories on both balancers; focus 6: aperture dynamics; focus 12: the open gate"""
+    """focus 5: membership histories on both balancers; focus 6: aperture dynamics; focus 12: the open gate;
+    focus 3: member faults under load (C03/C04 on the aperture balancer)"""
     if focus == 12:
         return gen_gate(rng, tier)
+    if focus == 3:
+        return gen_faults(rng, tier)
     if focus == 5:
         kind = rng.choice(['heap', 'aperture'])
     else:
@@ -590,7 +658,14 @@ def run_script(script, comp):
             if op[1] < 0:
                 if not live:
                     continue
-                nid = live[lr._r.randrange(len(live))].nid
+                if op[1] == -2:          # the member at the root of the heap (the next one to be chosen)
+                    nid = live[0].nid
+                    tags.add('chan-root')
+                elif op[1] == -3:        # a member with the most requests outstanding
+                    nid = max(live, key=lambda n: (n.load if n.load < 0 else n.load - sink.Penalty, -n.nid)).nid
+                    tags.add('chan-busy')
+                else:
+                    nid = live[lr._r.randrange(len(live))].nid
             else:
                 nid = op[1]
             if nid >= len(prov.chans):
